@@ -442,8 +442,11 @@ func build(rc Recipe, et EType) interface{} {
 		for k, e := range rc.Els {
 			setElem(m.At(k/rc.C0, k%rc.C0), et, e)
 		}
+		buildParent = m
 		for _, o := range rc.Ops {
-			if o.T {
+			if o.Tip {
+				m.(interface{ Tip() }).Tip()
+			} else if o.T {
 				m = m.T()
 			} else {
 				m = m.Slice(o.Rf, o.Rt, o.Cf, o.Ct)
@@ -455,6 +458,7 @@ func build(rc Recipe, et EType) interface{} {
 		for _, e := range rc.Ents {
 			setElem(m.At(int(e.K)/rc.C0, int(e.K)%rc.C0), et, e.E)
 		}
+		buildParent = m
 		for _, o := range rc.Ops {
 			m = m.Slice(o.Rf, o.Rt, o.Cf, o.Ct)
 		}
